@@ -166,5 +166,751 @@ theorem run_ident_flush {src pre w r : Str} (hsrc : src = pre ++ w ++ r) (out : 
       rw [pushPending_ident hsrc]
     rw [this]
 
+/-! ### `span` -/
+
+theorem span_append (p : Char → Bool) (cs : Str) : (span p cs).1 ++ (span p cs).2 = cs := by
+  induction cs with
+  | nil => rfl
+  | cons c cs ih =>
+    simp only [span]
+    split
+    · simp [ih]
+    · rfl
+
+theorem span_fst_all (p : Char → Bool) (cs : Str) : ∀ c ∈ (span p cs).1, p c = true := by
+  induction cs with
+  | nil => simp [span]
+  | cons c cs ih =>
+    simp only [span]
+    split
+    · rename_i h
+      intro d hd
+      rcases List.mem_cons.mp hd with rfl | hd
+      · exact h
+      · exact ih d hd
+    · simp
+
+theorem span_snd_head (p : Char → Bool) (cs : Str) : ∀ d r, (span p cs).2 = d :: r → p d = false := by
+  induction cs with
+  | nil => simp [span]
+  | cons c cs ih =>
+    simp only [span]
+    split
+    · exact ih
+    · rename_i h
+      intro d r hd
+      cases hd
+      simpa using h
+
+theorem span_cons_true (p : Char → Bool) (c : Char) (cs : Str) (h : p c = true) :
+    (span p (c :: cs)).1 = c :: (span p cs).1 ∧ (span p (c :: cs)).2 = (span p cs).2 := by
+  simp [span, h]
+
+theorem drop_len_append {α} (a b : List α) : (a ++ b).drop a.length = b := by simp
+theorem take_len_append {α} (a b : List α) : (a ++ b).take a.length = a := by simp
+
+/-! ### terminal identifiers -/
+
+theorem run_termIdent_chars (src : Str) : ∀ (tail r : Str) (j s : Nat) (out : List Token),
+    (∀ c ∈ tail, isIdentChar c = true) →
+    run src (tail ++ r) j ⟨out, .termIdent s j⟩ =
+      run src r (j + blen tail) ⟨out, .termIdent s (j + blen tail)⟩ := by
+  intro tail
+  induction tail with
+  | nil => intro r j s out _; simp
+  | cons c cs ih =>
+    intro r j s out hall
+    have hc : isIdentChar c = true := hall c (List.mem_cons_self ..)
+    have h : handleChar src ⟨out, .termIdent s j⟩ c j = .ok ⟨out, .termIdent s (j + clen c)⟩ := by
+      simp only [handleChar]
+      have : (isAsciiAlnum c || decide (c = '_')) = true := hc
+      simp [this]
+    rw [List.cons_append, run_cons_ok h, ih r (j + clen c) s out (fun d hd => hall d (List.mem_cons_of_mem _ hd))]
+    simp only [blen_cons]
+    rw [Nat.add_assoc]
+
+theorem removeDollars_identChars (w : Str) (h : ∀ c ∈ w, isIdentChar c = true) : removeDollars w = w := by
+  unfold removeDollars
+  rw [List.filter_eq_self]
+  intro c hc
+  have := h c hc
+  by_cases e : c = '$'
+  · subst e; revert this; decide
+  · simpa using e
+
+theorem pushPending_termIdent {src pre w r : Str} (hsrc : src = pre ++ ('$' :: w) ++ r) (out : List Token)
+    (hw : ∀ c ∈ w, isIdentChar c = true) (cur : Option Char) (ci : Nat) :
+    pushPending src ⟨out, .termIdent (blen pre) (blen pre + 1 + blen w)⟩ cur ci =
+      if (reserved w 0).isSome then .err (.lex ci cur)
+      else .ok ⟨out ++ [.termIdent w (blen pre + 1)], .main⟩ := by
+  have hs : sliceBytes src (blen pre) (blen pre + 1 + blen w) = some ('$' :: w) := by
+    have := slice_mid pre ('$' :: w) r
+    rw [hsrc]
+    have e : blen pre + blen ('$' :: w) = blen pre + 1 + blen w := by
+      simp only [blen_cons]; have : clen '$' = 1 := by decide
+      omega
+    rw [e] at this; exact this
+  have hrd : removeDollars ('$' :: w) = w := by
+    have : removeDollars ('$' :: w) = removeDollars w := by simp [removeDollars]
+    rw [this]; exact removeDollars_identChars w hw
+  simp only [pushPending, hs, Res.ofOption, bind, Res.bind, hrd, reservedWordToken_eq]
+  split <;> rfl
+
+/-! ### outer attributes -/
+
+theorem isOpener_eq (c : Char) : isOpener c = isOpen c := rfl
+theorem isCloser_eq (c : Char) : isCloser c = isClose c := rfl
+theorem bracketsMatch_eq (o c : Char) : bracketsMatch o c = closes o c := rfl
+
+theorem clen_hash : clen '#' = 1 := by decide
+theorem clen_lbracket : clen '[' = 1 := by decide
+
+theorem slice_attr {src pre done rest : Str} (hsrc : src = pre ++ '#' :: '[' :: done ++ rest) :
+    sliceBytes src (blen pre) (blen pre + 2 + blen done) = some ('#' :: '[' :: done) := by
+  have := slice_mid pre ('#' :: '[' :: done) rest
+  have e : blen pre + blen ('#' :: '[' :: done) = blen pre + 2 + blen done := by
+    simp only [blen_cons, clen_hash, clen_lbracket]; omega
+  rw [e] at this
+  rw [hsrc]
+  simpa using this
+
+theorem assertBrackets_eq {src pre done rest : Str} (hsrc : src = pre ++ '#' :: '[' :: done ++ rest) :
+    assertBrackets src (blen pre) (blen pre + 2 + blen done) = bracketScan done (blen pre + 2) ['['] := by
+  have hs : sliceBytes src (blen pre + 1) (blen pre + 2 + blen done) = some ('[' :: done) := by
+    have := slice_mid (pre ++ ['#']) ('[' :: done) rest
+    have e1 : blen (pre ++ ['#']) = blen pre + 1 := by simp [clen_hash]
+    have e2 : blen (pre ++ ['#']) + blen ('[' :: done) = blen pre + 2 + blen done := by
+      simp only [blen_append, blen_cons, blen_nil, clen_hash, clen_lbracket]; omega
+    rw [e2, e1] at this
+    rw [hsrc]
+    simpa using this
+  simp only [assertBrackets, hs, Res.ofOption, bind, Res.bind]
+  have : isOpener '[' = true := by decide
+  simp only [bracketScan, this, if_true, clen_lbracket]
+
+theorem bracketScan_append_err : ∀ (a b : Str) (i : Nat) (st : List Char) (e : KErr),
+    bracketScan a i st = .err e → bracketScan (a ++ b) i st = .err e := by
+  intro a
+  induction a with
+  | nil => intro b i st e h; simp [bracketScan] at h
+  | cons c cs ih =>
+    intro b i st e h
+    simp only [List.cons_append, bracketScan] at h ⊢
+    split
+    · rename_i h1; simp only [h1, if_true] at h; exact ih _ _ _ _ h
+    · rename_i h1
+      simp only [h1] at h
+      split
+      · rename_i h2
+        simp only [h2, if_true] at h
+        cases st with
+        | nil => simpa using h
+        | cons o st' =>
+          simp only at h ⊢
+          split
+          · rename_i h3; simp only [h3, if_true] at h; exact ih _ _ _ _ h
+          · rename_i h3; simp only [h3] at h; simpa using h
+      · rename_i h2; simp only [h2] at h; exact ih _ _ _ _ h
+
+/-- once the bracket scan of the consumed part has failed, every continuation of the state machine
+reports that failure (it is found by the scan at the closing bracket, the newline or the end of input) -/
+theorem run_attr_doomed {src pre : Str} (e : KErr) (out : List Token) :
+    ∀ (cs done : Str) (cnt : Nat), 1 ≤ cnt → src = pre ++ '#' :: '[' :: done ++ cs →
+      bracketScan done (blen pre + 2) ['['] = .err e →
+      run src cs (blen pre + 2 + blen done) ⟨out, .attr (blen pre) cnt (blen pre + 2 + blen done)⟩ = .err e := by
+  intro cs
+  induction cs with
+  | nil =>
+    intro done cnt _ hsrc hbad
+    simp only [run, loop, finishTk, pushPending, bind, Res.bind]
+    rw [assertBrackets_eq hsrc, hbad]
+  | cons c cs ih =>
+    intro done cnt hcnt hsrc hbad
+    have hsrc' : src = pre ++ '#' :: '[' :: (done ++ [c]) ++ cs := by rw [hsrc]; simp
+    have hbad' : bracketScan (done ++ [c]) (blen pre + 2) ['['] = .err e := bracketScan_append_err _ _ _ _ _ hbad
+    have hj : blen pre + 2 + blen done + clen c = blen pre + 2 + blen (done ++ [c]) := by simp; omega
+    by_cases h1 : isOpener c = true
+    · have h : handleChar src ⟨out, .attr (blen pre) cnt (blen pre + 2 + blen done)⟩ c (blen pre + 2 + blen done) =
+          .ok ⟨out, .attr (blen pre) (cnt + 1) (blen pre + 2 + blen done + clen c)⟩ := by
+        simp [handleChar, h1]
+      rw [run_cons_ok h, hj]
+      exact ih _ _ (by omega) hsrc' hbad'
+    · by_cases h2 : isCloser c = true
+      · by_cases h3 : cnt = 1
+        · have h : handleChar src ⟨out, .attr (blen pre) cnt (blen pre + 2 + blen done)⟩ c (blen pre + 2 + blen done) =
+              .err e := by
+            simp only [handleChar, h1, h2, h3, if_true, Bool.false_eq_true, if_false, finishOuterAttribute, bind, Res.bind]
+            rw [hj, assertBrackets_eq hsrc', hbad']
+          exact run_cons_err h
+        · have h : handleChar src ⟨out, .attr (blen pre) cnt (blen pre + 2 + blen done)⟩ c (blen pre + 2 + blen done) =
+              .ok ⟨out, .attr (blen pre) (cnt - 1) (blen pre + 2 + blen done + clen c)⟩ := by
+            simp [handleChar, h1, h2, h3]
+          rw [run_cons_ok h, hj]
+          exact ih _ _ (by omega) hsrc' hbad'
+      · by_cases h4 : c = '\n'
+        · have h : handleChar src ⟨out, .attr (blen pre) cnt (blen pre + 2 + blen done)⟩ c (blen pre + 2 + blen done) =
+              .err e := by
+            subst h4
+            simp only [handleChar, show isOpener '\n' = false from by decide, show isCloser '\n' = false from by decide,
+              Bool.false_eq_true, if_false, if_true, bind, Res.bind]
+            rw [assertBrackets_eq hsrc, hbad]
+          exact run_cons_err h
+        · have h : handleChar src ⟨out, .attr (blen pre) cnt (blen pre + 2 + blen done)⟩ c (blen pre + 2 + blen done) =
+              .ok ⟨out, .attr (blen pre) cnt (blen pre + 2 + blen done + clen c)⟩ := by
+            simp [handleChar, h1, h2, h4]
+          rw [run_cons_ok h, hj]
+          exact ih _ _ hcnt hsrc' hbad'
+
+/-- scanning the consumed part `done` of an attribute (after `#[`) succeeds and leaves the stack `st` -/
+def Inv (pre done : Str) (st : List Char) : Prop :=
+  ∀ tail, bracketScan (done ++ tail) (blen pre + 2) ['['] = bracketScan tail (blen pre + 2 + blen done) st
+
+theorem Inv.snoc {pre done : Str} {st st' : List Char} {c : Char} (h : Inv pre done st)
+    (hstep : ∀ tail, bracketScan (c :: tail) (blen pre + 2 + blen done) st =
+      bracketScan tail (blen pre + 2 + blen done + clen c) st') : Inv pre (done ++ [c]) st' := by
+  intro tail
+  have : (done ++ [c]) ++ tail = done ++ (c :: tail) := by simp
+  rw [this, h (c :: tail), hstep tail]
+  congr 1
+  simp; omega
+
+theorem run_attr {src pre : Str} (out : List Token) :
+    ∀ (cs done : Str) (st : List Char), st ≠ [] → src = pre ++ '#' :: '[' :: done ++ cs → Inv pre done st →
+      run src cs (blen pre + 2 + blen done) ⟨out, .attr (blen pre) st.length (blen pre + 2 + blen done)⟩ =
+        match attrBody cs (blen pre + 2 + blen done) st with
+        | .bad k ch => .err (.lex k ch)
+        | .done body r' =>
+          run src r' (blen pre + 2 + blen done + blen body)
+            ⟨out ++ [.attr ('#' :: '[' :: done ++ body) (blen pre)], .main⟩ := by
+  intro cs
+  induction cs with
+  | nil =>
+    intro done st hst hsrc hinv
+    have hlen : blen src = blen pre + 2 + blen done := by
+      rw [hsrc]; simp [clen_hash, clen_lbracket]; omega
+    have h0 := hinv []
+    simp only [List.append_nil, bracketScan] at h0
+    simp only [run, loop, finishTk, pushPending, bind, Res.bind, attrBody]
+    rw [assertBrackets_eq hsrc, h0, hlen]
+  | cons c cs ih =>
+    intro done st hst hsrc hinv
+    have hsrc' : src = pre ++ '#' :: '[' :: (done ++ [c]) ++ cs := by rw [hsrc]; simp
+    have hj : blen pre + 2 + blen done + clen c = blen pre + 2 + blen (done ++ [c]) := by simp; omega
+    by_cases h1 : isOpen c = true
+    · -- an opening bracket
+      have h : handleChar src ⟨out, .attr (blen pre) st.length (blen pre + 2 + blen done)⟩ c (blen pre + 2 + blen done) =
+          .ok ⟨out, .attr (blen pre) (c :: st).length (blen pre + 2 + blen done + clen c)⟩ := by
+        simp [handleChar, isOpener_eq, h1]
+      have hinv' : Inv pre (done ++ [c]) (c :: st) :=
+        hinv.snoc (fun tail => by simp [bracketScan, isOpener_eq, h1])
+      rw [run_cons_ok h, hj, ih (done ++ [c]) (c :: st) (by simp) hsrc' hinv']
+      simp only [attrBody, h1, if_true, ← hj]
+      cases attrBody cs (blen pre + 2 + blen done + clen c) (c :: st) with
+      | bad k ch => rfl
+      | done body r' => simp [Nat.add_assoc]
+    · by_cases h2 : isClose c = true
+      · cases st with
+        | nil => exact absurd rfl hst
+        | cons o st' =>
+          by_cases h3 : closes o c = true
+          · by_cases h4 : st'.isEmpty = true
+            · -- the bracket that ends the attribute
+              have hst' : st' = [] := by simpa using h4
+              subst hst'
+              have hscan : bracketScan (done ++ [c]) (blen pre + 2) ['['] = .ok () := by
+                rw [hinv [c]]
+                simp [bracketScan, isOpener_eq, isCloser_eq, bracketsMatch_eq, h1, h2, h3]
+              have h : handleChar src ⟨out, .attr (blen pre) [o].length (blen pre + 2 + blen done)⟩ c (blen pre + 2 + blen done) =
+                  .ok ⟨out ++ [.attr ('#' :: '[' :: (done ++ [c])) (blen pre)], .main⟩ := by
+                simp only [handleChar, isOpener_eq, isCloser_eq, h1, h2, List.length_singleton, if_true,
+                  Bool.false_eq_true, if_false, finishOuterAttribute, bind, Res.bind]
+                rw [hj, assertBrackets_eq hsrc', hscan, slice_attr hsrc']
+                rfl
+              rw [run_cons_ok h]
+              simp [attrBody, h1, h2, h3]
+            · -- a closing bracket inside the attribute
+              have hne : st' ≠ [] := by intro e; subst e; simp at h4
+              have hlen : (o :: st').length ≠ 1 := by
+                cases st' with
+                | nil => exact absurd rfl hne
+                | cons _ _ => simp
+              have h : handleChar src ⟨out, .attr (blen pre) (o :: st').length (blen pre + 2 + blen done)⟩ c (blen pre + 2 + blen done) =
+                  .ok ⟨out, .attr (blen pre) st'.length (blen pre + 2 + blen done + clen c)⟩ := by
+                simp only [handleChar, isOpener_eq, isCloser_eq, h1, h2, hlen, if_true, Bool.false_eq_true, if_false]
+                simp
+              have hinv' : Inv pre (done ++ [c]) st' :=
+                hinv.snoc (fun tail => by simp [bracketScan, isOpener_eq, isCloser_eq, bracketsMatch_eq, h1, h2, h3])
+              rw [run_cons_ok h, hj, ih (done ++ [c]) st' hne hsrc' hinv']
+              simp only [attrBody, h1, h2, h3, h4, if_true, Bool.false_eq_true, if_false, ← hj]
+              cases attrBody cs (blen pre + 2 + blen done + clen c) st' with
+              | bad k ch => rfl
+              | done body r' => simp [Nat.add_assoc]
+          · -- a closing bracket of the wrong kind: the first offending character
+            have hbad : bracketScan (done ++ [c]) (blen pre + 2) ['['] =
+                .err (.lex (blen pre + 2 + blen done) (some c)) := by
+              rw [hinv [c]]
+              simp [bracketScan, isOpener_eq, isCloser_eq, bracketsMatch_eq, h1, h2, h3]
+            have hspec : attrBody (c :: cs) (blen pre + 2 + blen done) (o :: st') =
+                .bad (blen pre + 2 + blen done) (some c) := by
+              simp [attrBody, h1, h2, h3]
+            rw [hspec]
+            by_cases h5 : (o :: st').length = 1
+            · have h : handleChar src ⟨out, .attr (blen pre) (o :: st').length (blen pre + 2 + blen done)⟩ c (blen pre + 2 + blen done) =
+                  .err (.lex (blen pre + 2 + blen done) (some c)) := by
+                simp only [handleChar, isOpener_eq, isCloser_eq, h1, h2, h5, if_true, Bool.false_eq_true, if_false,
+                  finishOuterAttribute, bind, Res.bind]
+                rw [hj, assertBrackets_eq hsrc', hbad]
+              exact run_cons_err h
+            · have h : handleChar src ⟨out, .attr (blen pre) (o :: st').length (blen pre + 2 + blen done)⟩ c (blen pre + 2 + blen done) =
+                  .ok ⟨out, .attr (blen pre) ((o :: st').length - 1) (blen pre + 2 + blen done + clen c)⟩ := by
+                simp only [handleChar, isOpener_eq, isCloser_eq, h1, h2, h5, if_true, Bool.false_eq_true, if_false]
+              rw [run_cons_ok h, hj]
+              have hge : 1 ≤ (o :: st').length - 1 := by
+                cases st' with
+                | nil => simp at h5
+                | cons _ _ => simp
+              exact run_attr_doomed _ out cs (done ++ [c]) _ hge hsrc' hbad
+      · by_cases h4 : c = '\n'
+        · -- a newline before the attribute is closed
+          subst h4
+          have h0 := hinv []
+          simp only [List.append_nil, bracketScan] at h0
+          have h : handleChar src ⟨out, .attr (blen pre) st.length (blen pre + 2 + blen done)⟩ '\n' (blen pre + 2 + blen done) =
+              .err (.lex (blen pre + 2 + blen done) (some '\n')) := by
+            simp only [handleChar, show isOpener '\n' = false from by decide, show isCloser '\n' = false from by decide,
+              Bool.false_eq_true, if_false, if_true, bind, Res.bind]
+            rw [assertBrackets_eq hsrc, h0]
+          rw [run_cons_err h]
+          simp [attrBody, show isOpen '\n' = false from by decide, show isClose '\n' = false from by decide]
+        · -- any other character
+          have h : handleChar src ⟨out, .attr (blen pre) st.length (blen pre + 2 + blen done)⟩ c (blen pre + 2 + blen done) =
+              .ok ⟨out, .attr (blen pre) st.length (blen pre + 2 + blen done + clen c)⟩ := by
+            simp [handleChar, isOpener_eq, isCloser_eq, h1, h2, h4]
+          have hinv' : Inv pre (done ++ [c]) st :=
+            hinv.snoc (fun tail => by simp [bracketScan, isOpener_eq, isCloser_eq, h1, h2])
+          rw [run_cons_ok h, hj, ih (done ++ [c]) st hst hsrc' hinv']
+          simp only [attrBody, h1, h2, h4, Bool.false_eq_true, if_false, ← hj]
+          cases attrBody cs (blen pre + 2 + blen done + clen c) st with
+          | bad k ch => rfl
+          | done body r' => simp [Nat.add_assoc]
+
+theorem attrBody_done_append : ∀ (cs : Str) (i : Nat) (st : List Char) (body r : Str),
+    attrBody cs i st = .done body r → cs = body ++ r := by
+  intro cs
+  induction cs with
+  | nil => intro i st body r h; simp [attrBody] at h
+  | cons c cs ih =>
+    intro i st body r h
+    simp only [attrBody] at h
+    by_cases h1 : isOpen c = true
+    · simp only [h1, if_true] at h
+      cases hb : attrBody cs (i + clen c) (c :: st) with
+      | done b' r' => rw [hb] at h; cases h; rw [ih _ _ _ _ hb]; rfl
+      | bad j ch => rw [hb] at h; cases h
+    · simp only [h1] at h
+      by_cases h2 : isClose c = true
+      · simp only [h2, if_true] at h
+        cases st with
+        | nil => simp at h
+        | cons o st' =>
+          simp only at h
+          by_cases h3 : closes o c = true
+          · simp only [h3, if_true] at h
+            by_cases h4 : st'.isEmpty = true
+            · simp only [h4, if_true] at h; cases h; rfl
+            · simp only [h4] at h
+              cases hb : attrBody cs (i + clen c) st' with
+              | done b' r' => rw [hb] at h; cases h; rw [ih _ _ _ _ hb]; rfl
+              | bad j ch => rw [hb] at h; cases h
+          · simp [h3] at h
+      · simp only [h2] at h
+        by_cases h5 : c = '\n'
+        · simp [h5] at h
+        · simp only [h5, if_false] at h
+          cases hb : attrBody cs (i + clen c) st with
+          | done b' r' => rw [hb] at h; cases h; rw [ih _ _ _ _ hb]; rfl
+          | bad j ch => rw [hb] at h; cases h
+
+/-- flushing a terminal identifier at the first non-identifier character or at the end of the input -/
+theorem run_termIdent_flush {src pre w r : Str} (hsrc : src = pre ++ ('$' :: w) ++ r) (out : List Token)
+    (hw : ∀ c ∈ w, isIdentChar c = true) (hr : ∀ d r', r = d :: r' → isIdentChar d = false) :
+    run src r (blen pre + 1 + blen w) ⟨out, .termIdent (blen pre) (blen pre + 1 + blen w)⟩ =
+      if (reserved w 0).isSome then .err (.lex (blen pre + 1 + blen w) r.head?)
+      else run src r (blen pre + 1 + blen w) ⟨out ++ [.termIdent w (blen pre + 1)], .main⟩ := by
+  cases r with
+  | nil =>
+    have hlen : blen src = blen pre + 1 + blen w := by
+      rw [hsrc]; simp [show clen '$' = 1 from by decide]; omega
+    simp only [run, loop, finishTk]
+    rw [pushPending_termIdent hsrc out hw, hlen]
+    by_cases hres : (reserved w 0).isSome = true
+    · simp [hres]
+    · simp [hres, pushPending]
+  | cons d r' =>
+    have hd : isIdentChar d = false := hr d r' rfl
+    have hd' : (isAsciiAlnum d || decide (d = '_')) = false := hd
+    by_cases hres : (reserved w 0).isSome = true
+    · simp only [hres, if_true, List.head?_cons]
+      have h : handleChar src ⟨out, .termIdent (blen pre) (blen pre + 1 + blen w)⟩ d (blen pre + 1 + blen w) =
+          .err (.lex (blen pre + 1 + blen w) (some d)) := by
+        simp only [handleChar, hd', Bool.false_eq_true, if_false, bind, Res.bind]
+        rw [pushPending_termIdent hsrc out hw]
+        simp [hres]
+      exact run_cons_err h
+    · simp only [hres, Bool.false_eq_true, if_false]
+      unfold run
+      simp only [loop]
+      have : handleChar src ⟨out, .termIdent (blen pre) (blen pre + 1 + blen w)⟩ d (blen pre + 1 + blen w) =
+          handleChar src ⟨out ++ [.termIdent w (blen pre + 1)], .main⟩ d (blen pre + 1 + blen w) := by
+        simp only [handleChar, hd', Bool.false_eq_true, if_false, bind, Res.bind]
+        rw [pushPending_termIdent hsrc out hw]
+        simp [hres]
+      rw [this]
+
+/-! ### the main theorem -/
+
+theorem handleChar_main (src : Str) (out : List Token) (c : Char) (i : Nat) :
+    handleChar src ⟨out, .main⟩ c i = handleMain ⟨out, .main⟩ c i := rfl
+
+theorem run_main (src : Str) : ∀ (n : Nat) (cs pre : Str) (out : List Token), cs.length ≤ n → src = pre ++ cs →
+    run src cs (blen pre) ⟨out, .main⟩ = prepend out (scanFrom cs (blen pre)) := by
+  intro n
+  induction n with
+  | zero =>
+    intro cs pre out hn hsrc
+    have : cs = [] := by cases cs <;> simp_all
+    subst this
+    rw [scanFrom_done rfl]
+    simp [run, loop, finishTk, pushPending]
+  | succ n ih =>
+    intro cs pre out hn hsrc
+    cases cs with
+    | nil =>
+      rw [scanFrom_done rfl]
+      simp [run, loop, finishTk, pushPending]
+    | cons c rest =>
+      have hrest : rest.length ≤ n := by simp at hn; omega
+      have hsrc1 : src = (pre ++ [c]) ++ rest := by rw [hsrc]; simp
+      have hb1 : blen (pre ++ [c]) = blen pre + clen c := by simp
+      by_cases hws : isWhitespace c = true
+      · -- whitespace
+        have h : handleChar src ⟨out, .main⟩ c (blen pre) = .ok ⟨out, .main⟩ := by
+          simp [handleChar_main, handleMain, hws]
+        rw [run_cons_ok h, scanFrom_skip (next_whitespace c rest (blen pre) hws), ← hb1]
+        have := ih rest (pre ++ [c]) out hrest hsrc1
+        rw [this]
+        simp [blen]
+      · have hws' : isWhitespace c = false := by simpa using hws
+        by_cases hsl : c = '/'
+        · -- a slash: comment or error
+          subst hsl
+          have h : handleChar src ⟨out, .main⟩ '/' (blen pre) = .ok ⟨out, .slash (blen pre)⟩ := by
+            simp [handleChar_main, handleMain, hws']
+          rw [run_cons_ok h]
+          cases rest with
+          | nil =>
+            have hn' : next ['/'] (blen pre) = .bad (blen pre) (some '/') := by
+              simp [next, hws']
+            rw [scanFrom_bad hn']
+            simp [run, loop, finishTk, pushPending]
+          | cons d r =>
+            by_cases hd : d = '/'
+            · subst hd
+              have h2 : handleChar src ⟨out, .slash (blen pre)⟩ '/' (blen pre + clen '/') = .ok ⟨out, .comment⟩ := by
+                simp [handleChar]
+              have hn' : next ('/' :: '/' :: r) (blen pre) = .skip (1 + commentLen r) := by
+                simp [next, hws']
+              rw [run_cons_ok h2, run_comment, scanFrom_skip hn']
+              have e1 : ('/' :: '/' :: r).drop (1 + commentLen r + 1) = r.drop (commentLen r) := by
+                have : 1 + commentLen r + 1 = commentLen r + 2 := by omega
+                rw [this]; rfl
+              have e2 : ('/' :: '/' :: r).take (1 + commentLen r + 1) = '/' :: '/' :: r.take (commentLen r) := by
+                have : 1 + commentLen r + 1 = commentLen r + 2 := by omega
+                rw [this]; rfl
+              rw [e1, e2]
+              have hsrc2 : src = (pre ++ '/' :: '/' :: r.take (commentLen r)) ++ r.drop (commentLen r) := by
+                rw [hsrc]; simp
+              have hlen2 : (r.drop (commentLen r)).length ≤ n := by
+                simp at hrest ⊢; omega
+              have := ih (r.drop (commentLen r)) (pre ++ '/' :: '/' :: r.take (commentLen r)) out hlen2 hsrc2
+              have hb2 : blen (pre ++ '/' :: '/' :: r.take (commentLen r)) =
+                  blen pre + clen '/' + clen '/' + blen (r.take (commentLen r)) := by simp; omega
+              rw [hb2] at this
+              rw [this]
+              simp [blen, Nat.add_assoc]
+            · have h2 : handleChar src ⟨out, .slash (blen pre)⟩ d (blen pre + clen '/') =
+                  .err (.lex (blen pre) (some '/')) := by
+                simp [handleChar, hd]
+              have hn' : next ('/' :: d :: r) (blen pre) = .bad (blen pre) (some '/') := by
+                simp [next, hws', hd]
+              rw [run_cons_err h2, scanFrom_bad hn']; rfl
+        · by_cases hid : isIdentStart c = true
+          · -- an identifier or reserved word
+            have hid' : (isAsciiAlpha c || decide (c = '_')) = true := hid
+            have h : handleChar src ⟨out, .main⟩ c (blen pre) = .ok ⟨out, .ident (blen pre) (blen pre + clen c)⟩ := by
+              simp [handleChar_main, handleMain, hws', hsl, hid']
+            have hsp := span_append isIdentChar rest
+            generalize htl : (span isIdentChar rest).1 = tail at hsp
+            generalize hrr : (span isIdentChar rest).2 = r at hsp
+            have hall : ∀ d ∈ tail, isIdentChar d = true := by rw [← htl]; exact span_fst_all _ _
+            have hhead : ∀ d r', r = d :: r' → isIdentChar d = false := by rw [← hrr]; exact span_snd_head _ _
+            have hn' : next (c :: rest) (blen pre) = .emit (identTok (c :: tail) (blen pre)) tail.length := by
+              simp only [next, hws', Bool.false_eq_true, if_false, hsl, hid, if_true, htl, identTok]
+            have hsrcw : src = pre ++ (c :: tail) ++ r := by rw [hsrc, ← hsp]; simp
+            rw [run_cons_ok h, scanFrom_emit hn']
+            conv => lhs; rw [← hsp]
+            rw [run_ident_chars src tail r _ _ out hall]
+            have hbw : blen pre + clen c + blen tail = blen pre + blen (c :: tail) := by simp; omega
+            rw [hbw, run_ident_flush hsrcw out hhead]
+            have hlenr : r.length ≤ n := by
+              have : rest.length = tail.length + r.length := by rw [← hsp]; simp
+              omega
+            have hb3 : blen (pre ++ (c :: tail)) = blen pre + blen (c :: tail) := by simp
+            have := ih r (pre ++ (c :: tail)) (out ++ [identTok (c :: tail) (blen pre)]) hlenr hsrcw
+            rw [hb3] at this
+            rw [this, prepend_prepend]
+            have e1 : (c :: rest).drop (tail.length + 1) = r := by
+              rw [← hsp]; simp
+            have e2 : (c :: rest).take (tail.length + 1) = c :: tail := by
+              rw [← hsp]; simp
+            rw [e1, e2]
+            rfl
+          · have hid' : (isAsciiAlpha c || decide (c = '_')) = false := by
+              have : isIdentStart c = false := by simpa using hid
+              exact this
+            by_cases hdl : c = '$'
+            · -- a terminal identifier
+              subst hdl
+              have h : handleChar src ⟨out, .main⟩ '$' (blen pre) = .ok ⟨out, .dollar (blen pre)⟩ := by
+                simp [handleChar_main, handleMain, hws', show isAsciiAlpha '$' = false from by decide]
+              have hcl : clen '$' = 1 := by decide
+              rw [run_cons_ok h, hcl]
+              cases rest with
+              | nil =>
+                have hn' : next ['$'] (blen pre) = .bad (blen pre) (some '$') := by
+                  simp [next, hws', show isIdentStart '$' = false from by decide]
+                rw [scanFrom_bad hn']
+                simp [run, loop, finishTk, pushPending]
+              | cons d r0 =>
+                by_cases hds : isIdentStart d = true
+                · have hds' : (isAsciiAlpha d || decide (d = '_')) = true := hds
+                  have h2 : handleChar src ⟨out, .dollar (blen pre)⟩ d (blen pre + 1) =
+                      .ok ⟨out, .termIdent (blen pre) (blen pre + 1 + clen d)⟩ := by
+                    simp [handleChar, hds']
+                  have hdc : isIdentChar d = true := identStart_identChar hds
+                  have hsp := span_append isIdentChar r0
+                  generalize htl : (span isIdentChar r0).1 = tail at hsp
+                  generalize hrr : (span isIdentChar r0).2 = r at hsp
+                  have hall : ∀ x ∈ tail, isIdentChar x = true := by rw [← htl]; exact span_fst_all _ _
+                  have hhead : ∀ x r', r = x :: r' → isIdentChar x = false := by rw [← hrr]; exact span_snd_head _ _
+                  have hspan1 : (span isIdentChar (d :: r0)).1 = d :: tail := by
+                    rw [(span_cons_true isIdentChar d r0 hdc).1, htl]
+                  have hspan2 : (span isIdentChar (d :: r0)).2 = r := by
+                    rw [(span_cons_true isIdentChar d r0 hdc).2, hrr]
+                  have hallw : ∀ x ∈ d :: tail, isIdentChar x = true := by
+                    intro x hx
+                    rcases List.mem_cons.mp hx with rfl | hx
+                    · exact hdc
+                    · exact hall x hx
+                  have hsrcw : src = pre ++ ('$' :: (d :: tail)) ++ r := by rw [hsrc, ← hsp]; simp
+                  rw [run_cons_ok h2]
+                  conv => lhs; rw [← hsp]
+                  rw [run_termIdent_chars src tail r _ _ out hall]
+                  have hbw : blen pre + 1 + clen d + blen tail = blen pre + 1 + blen (d :: tail) := by simp; omega
+                  rw [hbw, run_termIdent_flush hsrcw out hallw hhead]
+                  by_cases hres : (reserved (d :: tail) 0).isSome = true
+                  · have hn' : next ('$' :: d :: r0) (blen pre) =
+                        .bad (blen pre + 1 + blen (d :: tail)) r.head? := by
+                      simp only [next, hws', Bool.false_eq_true, if_false, hds, if_true, hspan1, hspan2, hres,
+                        show isIdentStart '$' = false from by decide]
+                      simp
+                    rw [scanFrom_bad hn']
+                    simp [hres]
+                  · have hn' : next ('$' :: d :: r0) (blen pre) =
+                        .emit (.termIdent (d :: tail) (blen pre + 1)) (d :: tail).length := by
+                      simp only [next, hws', Bool.false_eq_true, if_false, hds, if_true, hspan1, hspan2, hres,
+                        show isIdentStart '$' = false from by decide]
+                      simp
+                    rw [scanFrom_emit hn']
+                    simp only [hres, Bool.false_eq_true, if_false]
+                    have hlenr : r.length ≤ n := by
+                      have : r0.length = tail.length + r.length := by rw [← hsp]; simp
+                      simp at hrest; omega
+                    have hb3 : blen (pre ++ ('$' :: (d :: tail))) = blen pre + 1 + blen (d :: tail) := by
+                      simp [hcl]; omega
+                    have := ih r (pre ++ ('$' :: (d :: tail))) (out ++ [.termIdent (d :: tail) (blen pre + 1)]) hlenr hsrcw
+                    rw [hb3] at this
+                    rw [this, prepend_prepend]
+                    have e1 : ('$' :: d :: r0).drop ((d :: tail).length + 1) = r := by
+                      rw [← hsp]; simp
+                    have e2 : ('$' :: d :: r0).take ((d :: tail).length + 1) = '$' :: d :: tail := by
+                      rw [← hsp]; simp
+                    rw [e1, e2]
+                    have e3 : blen pre + blen ('$' :: d :: tail) = blen pre + 1 + blen (d :: tail) := by
+                      simp [hcl]; omega
+                    rw [e3]
+                    rfl
+                · have hds' : (isAsciiAlpha d || decide (d = '_')) = false := by
+                    have : isIdentStart d = false := by simpa using hds
+                    exact this
+                  have h2 : handleChar src ⟨out, .dollar (blen pre)⟩ d (blen pre + 1) =
+                      .err (.lex (blen pre) (some '$')) := by
+                    simp [handleChar, hds']
+                  have hn' : next ('$' :: d :: r0) (blen pre) = .bad (blen pre) (some '$') := by
+                    have : isIdentStart d = false := by simpa using hds
+                    simp [next, hws', this, show isIdentStart '$' = false from by decide]
+                  rw [run_cons_err h2, scanFrom_bad hn']; rfl
+            · by_cases hco : c = ':'
+              · -- colon or double colon
+                subst hco
+                have hcl : clen ':' = 1 := by decide
+                have h : handleChar src ⟨out, .main⟩ ':' (blen pre) = .ok ⟨out, .colon (blen pre)⟩ := by
+                  simp [handleChar_main, handleMain, hws', show isAsciiAlpha ':' = false from by decide]
+                rw [run_cons_ok h, hcl]
+                cases rest with
+                | nil =>
+                  have hn' : next [':'] (blen pre) = .emit (.colon (blen pre)) 0 := by
+                    simp [next, hws', show isIdentStart ':' = false from by decide]
+                  rw [scanFrom_emit hn']
+                  simp only [List.drop, List.take]
+                  rw [scanFrom_done rfl]
+                  simp [run, loop, finishTk, pushPending, prepend]
+                | cons d r =>
+                  by_cases hd : d = ':'
+                  · subst hd
+                    have h2 : handleChar src ⟨out, .colon (blen pre)⟩ ':' (blen pre + 1) =
+                        .ok ⟨out ++ [.dcolon (blen pre)], .main⟩ := by simp [handleChar]
+                    have hn' : next (':' :: ':' :: r) (blen pre) = .emit (.dcolon (blen pre)) 1 := by
+                      simp [next, hws', show isIdentStart ':' = false from by decide]
+                    rw [run_cons_ok h2, scanFrom_emit hn', hcl]
+                    have hsrc2 : src = (pre ++ [':', ':']) ++ r := by rw [hsrc]; simp
+                    have hb2 : blen (pre ++ [':', ':']) = blen pre + 1 + 1 := by simp [hcl]
+                    have := ih r (pre ++ [':', ':']) (out ++ [.dcolon (blen pre)]) (by simp at hrest; omega) hsrc2
+                    rw [hb2] at this
+                    rw [this, prepend_prepend]
+                    have e3 : blen pre + blen ((':' :: ':' :: r).take (1 + 1)) = blen pre + 1 + 1 := by
+                      simp [blen, hcl]
+                    rw [e3]
+                    rfl
+                  · have hn' : next (':' :: d :: r) (blen pre) = .emit (.colon (blen pre)) 0 := by
+                      simp [next, hws', hd, show isIdentStart ':' = false from by decide]
+                    rw [scanFrom_emit hn']
+                    have hpp : pushPending src ⟨out, .colon (blen pre)⟩ (some d) (blen pre + 1) =
+                        .ok ⟨out ++ [.colon (blen pre)], .main⟩ := by simp [pushPending]
+                    have : run src (d :: r) (blen pre + 1) ⟨out, .colon (blen pre)⟩ =
+                        run src (d :: r) (blen pre + 1) ⟨out ++ [.colon (blen pre)], .main⟩ := by
+                      unfold run
+                      simp only [loop]
+                      have : handleChar src ⟨out, .colon (blen pre)⟩ d (blen pre + 1) =
+                          handleChar src ⟨out ++ [.colon (blen pre)], .main⟩ d (blen pre + 1) := by
+                        simp only [handleChar, hd, if_false, bind, Res.bind, hpp]
+                      rw [this]
+                    rw [this]
+                    have hsrc2 : src = (pre ++ [':']) ++ (d :: r) := by rw [hsrc]; simp
+                    have hb2 : blen (pre ++ [':']) = blen pre + 1 := by simp [hcl]
+                    have := ih (d :: r) (pre ++ [':']) (out ++ [.colon (blen pre)]) hrest hsrc2
+                    rw [hb2] at this
+                    rw [this, prepend_prepend]
+                    have e3 : blen pre + blen ((':' :: d :: r).take (0 + 1)) = blen pre + 1 := by
+                      simp [blen, hcl]
+                    rw [e3]
+                    rfl
+              · by_cases hpo : c = '#'
+                · -- an outer attribute
+                  subst hpo
+                  have hcl : clen '#' = 1 := by decide
+                  have h : handleChar src ⟨out, .main⟩ '#' (blen pre) = .ok ⟨out, .pound (blen pre)⟩ := by
+                    simp [handleChar_main, handleMain, hws', show isAsciiAlpha '#' = false from by decide]
+                  rw [run_cons_ok h, hcl]
+                  cases rest with
+                  | nil =>
+                    have hn' : next ['#'] (blen pre) = .bad (blen pre) (some '#') := by
+                      simp [next, hws', show isIdentStart '#' = false from by decide]
+                    rw [scanFrom_bad hn']
+                    simp [run, loop, finishTk, pushPending]
+                  | cons d r =>
+                    by_cases hd : d = '['
+                    · subst hd
+                      have h2 : handleChar src ⟨out, .pound (blen pre)⟩ '[' (blen pre + 1) =
+                          .ok ⟨out, .attr (blen pre) 1 (blen pre + 1 + 1)⟩ := by simp [handleChar]
+                      rw [run_cons_ok h2, clen_lbracket]
+                      have hsrc0 : src = pre ++ '#' :: '[' :: [] ++ r := by rw [hsrc]; simp
+                      have hinv0 : Inv pre [] ['['] := by intro tail; simp
+                      have := run_attr (src := src) (pre := pre) out r [] ['['] (by simp) hsrc0 hinv0
+                      simp only [blen_nil, Nat.add_zero, List.length_singleton, List.nil_append] at this
+                      have e : blen pre + 1 + 1 = blen pre + 2 := by omega
+                      rw [e, this]
+                      cases hab : attrBody r (blen pre + 2) ['['] with
+                      | bad k ch =>
+                        have hn' : next ('#' :: '[' :: r) (blen pre) = .bad k ch := by
+                          simp [next, hws', hab, show isIdentStart '#' = false from by decide]
+                        rw [scanFrom_bad hn']; rfl
+                      | done body r' =>
+                        have hn' : next ('#' :: '[' :: r) (blen pre) =
+                            .emit (.attr ('#' :: '[' :: body) (blen pre)) (1 + body.length) := by
+                          simp [next, hws', hab, show isIdentStart '#' = false from by decide]
+                        have happ := attrBody_done_append _ _ _ _ _ hab
+                        rw [scanFrom_emit hn']
+                        simp only
+                        have hsrc2 : src = (pre ++ '#' :: '[' :: body) ++ r' := by rw [hsrc, happ]; simp
+                        have hb2 : blen (pre ++ '#' :: '[' :: body) = blen pre + 2 + blen body := by
+                          simp [hcl, clen_lbracket]; omega
+                        have hlen2 : r'.length ≤ n := by
+                          have : r.length = body.length + r'.length := by rw [happ]; simp
+                          simp at hrest; omega
+                        have := ih r' (pre ++ '#' :: '[' :: body) (out ++ [.attr ('#' :: '[' :: body) (blen pre)]) hlen2 hsrc2
+                        rw [hb2] at this
+                        simp only [List.nil_append, List.cons_append] at this ⊢
+                        rw [this, prepend_prepend]
+                        have e1 : ('#' :: '[' :: r).drop (1 + body.length + 1) = r' := by
+                          rw [happ]
+                          have : 1 + body.length + 1 = body.length + 2 := by omega
+                          rw [this]; simp
+                        have e2 : ('#' :: '[' :: r).take (1 + body.length + 1) = '#' :: '[' :: body := by
+                          rw [happ]
+                          have : 1 + body.length + 1 = body.length + 2 := by omega
+                          rw [this]; simp
+                        rw [e1, e2]
+                        have e3 : blen pre + blen ('#' :: '[' :: body) = blen pre + 2 + blen body := by
+                          simp [hcl, clen_lbracket]; omega
+                        rw [e3]
+                        rfl
+                    · have h2 : handleChar src ⟨out, .pound (blen pre)⟩ d (blen pre + 1) =
+                          .err (.lex (blen pre) (some '#')) := by
+                        simp [handleChar, hd, pushPending, bind, Res.bind]
+                      have hn' : next ('#' :: d :: r) (blen pre) = .bad (blen pre) (some '#') := by
+                        simp [next, hws', hd, show isIdentStart '#' = false from by decide]
+                      rw [run_cons_err h2, scanFrom_bad hn']; rfl
+                · -- punctuation or an illegal character
+                  cases hp : punct c (blen pre) with
+                  | some tok =>
+                    have h : handleChar src ⟨out, .main⟩ c (blen pre) = .ok ⟨out ++ [tok], .main⟩ := by
+                      simp [handleChar_main, handleMain, hws', hsl, hid', hdl, hco, hpo, punctToken_eq, hp]
+                    have hn' : next (c :: rest) (blen pre) = .emit tok 0 := by
+                      have : isIdentStart c = false := by simpa using hid
+                      simp [next, hws', hsl, this, hdl, hco, hpo, hp]
+                    rw [run_cons_ok h, scanFrom_emit hn', ← hb1]
+                    have := ih rest (pre ++ [c]) (out ++ [tok]) hrest hsrc1
+                    rw [this, prepend_prepend]
+                    have e3 : blen (pre ++ [c]) = blen pre + blen ((c :: rest).take (0 + 1)) := by simp [blen]
+                    rw [e3]
+                    rfl
+                  | none =>
+                    have h : handleChar src ⟨out, .main⟩ c (blen pre) = .err (.lex (blen pre) (some c)) := by
+                      simp [handleChar_main, handleMain, hws', hsl, hid', hdl, hco, hpo, punctToken_eq, hp]
+                    have hn' : next (c :: rest) (blen pre) = .bad (blen pre) (some c) := by
+                      have : isIdentStart c = false := by simpa using hid
+                      simp [next, hws', hsl, this, hdl, hco, hpo, hp]
+                    rw [run_cons_err h, scanFrom_bad hn']; rfl
+
+/-- **C08**: the tokenizer computes exactly the documented lexical rules -/
+theorem tokenize_eq_scan (src : Str) : tokenize src = scan src := by
+  rw [tokenize_eq_run]
+  have := run_main src src.length src [] [] (Nat.le_refl _) (by simp)
+  simp only [blen_nil] at this
+  rw [this]
+  unfold scan
+  cases scanFrom src 0 <;> simp [prepend]
+
 end Tokenize
 end KikiVerif
